@@ -1,2 +1,116 @@
-// harness site: src/catch/performance/gradual.rs
+// harness site: src/catch/performance/gradual.rs — C03 (builder hand-over), C15 (gradual performance
+// nth/last protocol); literal around an S1 difficulty state (harness/catch_gradual.rs), with
+// `CatchPerformance::calculate` replaced by a recording stub.
 #![allow(dead_code, unused_imports, clippy::all, clippy::pedantic)]
+
+use super::*;
+use crate::catch::difficulty::gradual::verif_harness as s1;
+use crate::catch::{CatchDifficultyAttributes, CatchPerformance};
+use crate::verif_harness::common::{ghost_probe, verif_replay_table, VerifPerf};
+
+struct Recorded {
+    difficulty: Difficulty,
+    fields: [Option<u32>; 6],
+    acc_set: bool,
+    attrs: Option<CatchDifficultyAttributes>,
+}
+
+static mut REC: Option<Recorded> = None;
+static mut REC_CALLS: usize = 0;
+
+pub(crate) fn rec_calculate<'map>(p: CatchPerformance<'map>) -> Result<CatchPerformanceAttributes, ConvertError>
+where
+    'map: 'map,
+{
+    unsafe {
+        REC_CALLS += 1;
+        REC = Some(Recorded {
+            difficulty: p.difficulty.clone(),
+            fields: [p.combo, p.fruits, p.droplets, p.tiny_droplets, p.tiny_droplet_misses, p.misses],
+            acc_set: p.acc.is_some(),
+            attrs: p.v_attrs().cloned(),
+        });
+    }
+    core::mem::forget(p);
+    Ok(CatchPerformanceAttributes::default())
+}
+
+pub(crate) fn pgradual_step<const N: usize, const M: usize>() {
+    let w = s1::any_witness::<N>();
+    let m = s1::model_of(&w);
+    let state = CatchScoreState {
+        max_combo: kani::any(),
+        fruits: kani::any(),
+        droplets: kani::any(),
+        tiny_droplets: kani::any(),
+        tiny_droplet_misses: kani::any(),
+        misses: kani::any(),
+    };
+    let mut d = Difficulty::new().mods(kani::any::<u32>());
+    if kani::any() {
+        d = d.lazer(kani::any());
+    }
+    if kani::any() {
+        d = d.hardrock_offsets(kani::any());
+    }
+    let p = w.p;
+    let remaining = N - p;
+    let n = if w.call == 0 { 0 } else if w.call == 2 { usize::MAX } else { w.n };
+
+    if ghost_probe() {
+        let mut inner = s1::literal_state::<N, M>(&w, &m);
+        inner.difficulty = d.clone();
+        let mut gp = CatchGradualPerformance { difficulty: inner };
+        assert!(gp.len() == remaining, "C15 catch gradual performance: len() is the number of objects left");
+        let res = match w.call {
+            0 => gp.next(state.clone()),
+            2 => gp.last(state.clone()),
+            _ => gp.nth(state.clone(), n),
+        };
+        assert!(res.is_some() == (remaining > 0), "C15 catch gradual performance: None exactly when nothing remains");
+        if remaining > 0 {
+            let k = core::cmp::min(p.saturating_add(n).saturating_add(1), N);
+            assert!(gp.difficulty.idx == k, "C15 catch gradual performance: processes min(n + 1, remaining) objects");
+            let rec = unsafe { REC.as_ref() };
+            assert!(unsafe { REC_CALLS } == 1 && rec.is_some(), "C03 catch: exactly one one-shot calculation per step");
+            let rec = rec.unwrap();
+            assert!(rec.difficulty == d.clone().passed_objects(k as u32), "C03 catch: the one-shot builder gets the gradual settings with passed_objects(idx)");
+            let s = &state;
+            assert!(
+                rec.fields == [Some(s.max_combo), Some(s.fruits), Some(s.droplets), Some(s.tiny_droplets), Some(s.tiny_droplet_misses), Some(s.misses)],
+                "C03 catch: the one-shot builder gets exactly the given score state"
+            );
+            assert!(!rec.acc_set, "C03 catch: no accuracy leaks into the one-shot builder");
+            let a = rec.attrs.as_ref();
+            assert!(a.is_some(), "C03 catch: the one-shot builder is attribute-backed");
+            let a = a.unwrap();
+            assert!(
+                a.n_fruits == m.fruits[k] && a.n_droplets == m.droplets[k] && a.n_tiny_droplets == m.tiny[k],
+                "C03 catch: the one-shot builder holds the attributes of exactly the processed prefix"
+            );
+        } else {
+            assert!(unsafe { REC_CALLS } == 0, "C03 catch: nothing is calculated when nothing remains");
+        }
+        kani::cover!(N < 2 || (w.call == 2 && remaining > 1), "last() with several objects left");
+        kani::cover!(N < 2 || (w.call == 1 && n > 0 && n < remaining), "nth inside the map");
+        kani::cover!(remaining == 0, "nothing remains");
+        core::mem::forget(gp);
+    } else if s1::representable_as_map(&w) {
+        let map = s1::map_of::<N>();
+        let mut gp = CatchGradualPerformance::new(d.clone(), &map).unwrap();
+        for _ in 0..p {
+            let _ = gp.next(state.clone());
+        }
+        let res = match w.call {
+            0 => gp.next(state.clone()),
+            2 => gp.last(state.clone()),
+            _ => gp.nth(state.clone(), n),
+        };
+        assert!(res.is_some() == (remaining > 0), "C15 catch gradual performance: None exactly when nothing remains");
+        if let Some(res) = res {
+            let k = core::cmp::min(p.saturating_add(n).saturating_add(1), N);
+            let one = CatchPerformance::new(&map).difficulty(d.clone()).passed_objects(k as u32).state(state.clone()).calculate().unwrap();
+            assert!(one.pp == res.pp && one.difficulty.n_fruits == res.difficulty.n_fruits, "C03 catch: gradual performance equals one-shot performance on the prefix");
+        }
+    }
+}
